@@ -104,3 +104,29 @@ Example C19_binreader_ex :
   fst (do_op 4%nat OReadByte (new_breader s)) = ResByte (RB 224%N) /\ snd (b_read b) = Ok (Some 224%N) /\
   abs (snd (do_op 4%nat OReadByte (new_breader s))) = flat_of (fst (b_read b)).
 Proof. vm_compute. repeat split; reflexivity. Qed.
+
+(* ---- the text tokenizer model as a client of the buffered reader -------------------------------------------------- *)
+(* Text/Tokenizer.v reaches its input in one place, t_read (ReadByte; after CR a Peek(1) and, on LF, one more ReadByte).
+   That program, written as a client of the bufio model, computes exactly t_read's character on the remaining input —
+   so every character the tokenizer model obtains (CR LF straddling a chunk or a buffer fill included) is independent
+   of the chunking, and a failing source is the model's I/O error. *)
+From IonV Require Import Text.Tokenizer Text.TokenizerIO.
+
+Theorem C19_tokenizer_read_is_client : forall bsize : nat, (1 <= bsize)%nat -> forall t br,
+  t_buf t = [] -> Inv bsize br -> abs br = tflat_of t ->
+  fst (run bsize read_client br) = fst (t_read_in t).
+Proof. exact read_client_bufio. Qed.
+Print Assumptions C19_tokenizer_read_is_client.
+
+Theorem C19_tokenizer_read_chunk_independent : forall bsize : nat, (1 <= bsize)%nat -> forall s1 s2,
+  s_rest s1 = s_rest s2 -> s_fin s1 = s_fin s2 ->
+  fst (run bsize read_client (new_breader s1)) = fst (run bsize read_client (new_breader s2)).
+Proof. exact read_chunk_independent. Qed.
+Print Assumptions C19_tokenizer_read_chunk_independent.
+
+Example C19_tokenizer_crlf_ex :
+  let inp := [97; 98; 99; 13; 10; 100]%N in
+  let br := new_breader (mkSource inp [3; 0; 0]%nat FEof false) in
+  let br3 := snd (run 4%nat (Do (ODiscard 3%nat) (fun _ => Done tt)) br) in
+  fst (run 4%nat read_client br3) = Some (Zpos 10) /\ abs (snd (run 4%nat read_client br3)) = mkFlat [100]%N FEof.
+Proof. exact read_client_crlf_ex. Qed.
